@@ -263,15 +263,19 @@ func K11(rc *RC) {
 		"eqTypes":          pred(func(b *types.Basic, k types.BasicKind) bool { return true }),
 		"specializedTypes": pred(func(b *types.Basic, k types.BasicKind) bool { return !ptr(k) }),
 		"numberTypes":      pred(func(b *types.Basic, k types.BasicKind) bool { return b.Info()&types.IsNumeric != 0 && !ptr(k) }),
-		"addableTypes":     pred(func(b *types.Basic, k types.BasicKind) bool { return (b.Info()&types.IsNumeric != 0 || b.Info()&types.IsString != 0) && !ptr(k) }),
-		"ordTypes":         pred(func(b *types.Basic, k types.BasicKind) bool { return b.Info()&types.IsOrdered != 0 && !ptr(k) }),
-		"floatTypes":       pred(func(b *types.Basic, k types.BasicKind) bool { return b.Info()&types.IsFloat != 0 }),
-		"complexTypes":     pred(func(b *types.Basic, k types.BasicKind) bool { return b.Info()&types.IsComplex != 0 }),
-		"floatcmplxTypes":  pred(func(b *types.Basic, k types.BasicKind) bool { return b.Info()&(types.IsFloat|types.IsComplex) != 0 }),
+		"addableTypes": pred(func(b *types.Basic, k types.BasicKind) bool {
+			return (b.Info()&types.IsNumeric != 0 || b.Info()&types.IsString != 0) && !ptr(k)
+		}),
+		"ordTypes":        pred(func(b *types.Basic, k types.BasicKind) bool { return b.Info()&types.IsOrdered != 0 && !ptr(k) }),
+		"floatTypes":      pred(func(b *types.Basic, k types.BasicKind) bool { return b.Info()&types.IsFloat != 0 }),
+		"complexTypes":    pred(func(b *types.Basic, k types.BasicKind) bool { return b.Info()&types.IsComplex != 0 }),
+		"floatcmplxTypes": pred(func(b *types.Basic, k types.BasicKind) bool { return b.Info()&(types.IsFloat|types.IsComplex) != 0 }),
 		"nonComplexNumberTypes": pred(func(b *types.Basic, k types.BasicKind) bool {
 			return b.Info()&types.IsNumeric != 0 && b.Info()&types.IsComplex == 0 && !ptr(k)
 		}),
-		"unsignedTypes": pred(func(b *types.Basic, k types.BasicKind) bool { return isInt(b) && b.Info()&types.IsUnsigned != 0 && !ptr(k) }),
+		"unsignedTypes": pred(func(b *types.Basic, k types.BasicKind) bool {
+			return isInt(b) && b.Info()&types.IsUnsigned != 0 && !ptr(k)
+		}),
 		"signedTypes": pred(func(b *types.Basic, k types.BasicKind) bool {
 			return b.Info()&types.IsNumeric != 0 && b.Info()&types.IsUnsigned == 0 && !ptr(k)
 		}),
